@@ -110,6 +110,13 @@ func extractItem() {
 		strings.Contains(as, "child.parent.status = from") && strings.Contains(as, "child.status = ItemFresh"))
 	s.strs("addChildFrom", statusNamesIn(ifWithMsg(ac, "from state is invalid"), "from", "!="), ac != nil)
 
+	// locking: the whole of AddChild / RemoveChild runs under the parent's write lock
+	rm := strings.ReplaceAll(src(fn(file, "Item.RemoveChild")), " ", "")
+	s.boolean("removeChildAtomic", strings.Contains(rm, "parent.childrenMu.Lock()deferparent.childrenMu.Unlock()_unsafeRemoveChild(parent,child.GetID())") &&
+		!strings.Contains(rm, "RLock"))
+	ur := strings.ReplaceAll(src(fn(file, "_unsafeRemoveChild")), " ", "")
+	s.boolean("removeFirstById", strings.Contains(ur, "ifparent.children[i].GetID()==childID{parent.children=append(parent.children[:i],parent.children[i+1:]...)return}"))
+	s.boolean("addChildAtomic", ac != nil && strings.HasPrefix(strings.ReplaceAll(src(ac.Body), " ", ""), "{i.childrenMu.Lock()deferi.childrenMu.Unlock()"))
 	dnr := fn(file, "Item.GetDepthWithoutRedirections")
 	ds := src(dnr)
 	s.boolean("dnrShape", dnr != nil && strings.Contains(ds, "return -1") && strings.Contains(ds, "return i.parent.GetDepthWithoutRedirections() + 1") &&
